@@ -435,6 +435,7 @@ def run(chk):
     # ---- thorough: no parse cache, OpenMP variants ---------------------------------------------------------
     if chk.tier == "thorough":
         omp_issue = omp_check(chk, entries)
+        oracle_check(chk, entries)
         if violation is None and omp_issue:
             violation = omp_issue
         uncached = extract(cache=False)
@@ -484,6 +485,47 @@ def omp_check(chk, entries, names=None):
             summary[f"{mode}/dm={dm}"] = n_ok
     chk.cov["openmp_variants_unchanged"] = summary
     return issue
+
+
+def oracle_check(chk, entries):
+    """gfortran executes the generated loop text; result compared with the twin of the Lean model."""
+    from props import c20_fexec
+    cases = []
+    for e in entries:
+        if e["codes"][0]["body"][0] == "rand" or not all(e["text_ok"]):
+            continue
+        nargs = len(e["meta"])
+        for kind in ("int", "rat", "edge", "rat"):
+            env = make_env(chk.rng, nargs, kind)
+            for pos, (_, dtype, _) in enumerate(e["meta"]):
+                if dtype == "gh_integer":
+                    env["flds"][pos] = [Fraction(int(v)) for v in env["flds"][pos]]
+                    env["scals"][pos] = Fraction(int(env["scals"][pos]))
+            if "pow" in json.dumps(e["codes"][0]["body"]):
+                env["flds"] = [[abs(v) + 1 for v in row] for row in env["flds"]]
+            try:
+                want = run_code(e["codes"][0], NDOF, env)
+            except Undefined:
+                continue
+            cases.append((e, 0, env, NDOF, want))
+    res, err = c20_fexec.run([c[:4] for c in cases])
+    if res is None:
+        chk.correspondence_broken("gfortran could not compile/run the generated loops", err, "", "")
+        return
+    bad = 0
+    for (e, _, env, _, want), got in zip(cases, res):
+        for pos, ((kind, _, _), vals) in enumerate(zip(e["meta"], got)):
+            exp = want["flds"][pos] if kind == "field" else [want["scals"][pos]]
+            if len(vals) != len(exp) or any(abs(g - float(x)) > 1e-11 * (1 + abs(float(x))) for g, x in zip(vals, exp)):
+                bad += 1
+                if bad == 1:
+                    chk.correspondence_broken(
+                        "gfortran execution of the generated loop differs from the model semantics",
+                        {"builtin": e["case_name"], "statement": e["code_text"][0],
+                         "env": {"flds": [[fr(v) for v in r] for r in env["flds"]], "scals": [fr(v) for v in env["scals"]]}},
+                        [fr(x) for x in exp], vals)
+                break
+    chk.cov["gfortran_oracle"] = {"cases": len(cases), "disagreements": bad}
 
 
 # ------------------------------------------------------------------------------------------ corpus / replay
